@@ -3,6 +3,7 @@ package c09
 import (
 	"encoding/json"
 	"fmt"
+	"io"
 	"os"
 	"path/filepath"
 	"sort"
@@ -180,10 +181,86 @@ func checkLive(c LiveCase) (string, string) {
 			}
 		}
 	}
+	// errors coming back from HANDLES name the caller's FS-relative path too: no error of any handle method may carry the
+	// scratch directory's OS path
+	if sig, msg := handleErrors(fsys, subRoot); sig != "" {
+		return sig, msg
+	}
 	if !ref.SentinelIntact() || !sub.SentinelIntact() {
 		return "C09/liveops outside-root", "something was created or changed next to the scratch root"
 	}
 	return "", ""
+}
+
+// handleErrors opens a read-only file handle, a read-write one and a directory handle below the root and provokes the
+// failing calls a handle has (write on read-only, read on a directory, negative seek / truncate, copying from and into
+// handles that cannot serve it -- io.Copy uses ReadFrom / WriteTo when present).
+func handleErrors(fsys hackpadfs.FS, osRoot string) (string, string) {
+	_ = hackpadfs.MkdirAll(fsys, "hx/dir", 0o755)
+	_ = hackpadfs.WriteFullFile(fsys, "hx/ro", []byte("read only"), 0o644)
+	_ = hackpadfs.WriteFullFile(fsys, "hx/rw", []byte("read write"), 0o644)
+	ro, err1 := hackpadfs.OpenFile(fsys, "hx/ro", os.O_RDONLY, 0)
+	rw, err2 := hackpadfs.OpenFile(fsys, "hx/rw", os.O_RDWR, 0)
+	dir, err3 := fsys.Open("hx/dir")
+	if err1 != nil || err2 != nil || err3 != nil {
+		return "C09/liveops handles:open", fmt.Sprint(err1, err2, err3)
+	}
+	defer func() { _ = ro.Close(); _ = rw.Close(); _ = dir.Close() }()
+	closed, _ := hackpadfs.OpenFile(fsys, "hx/rw", os.O_RDWR, 0)
+	_ = closed.Close()
+	type probe struct {
+		what string
+		err  error
+	}
+	var probes []probe
+	add := func(what string, err error) { probes = append(probes, probe{what, err}) }
+	pan, hung := vf.Guard(func() {
+		_, err := hackpadfs.WriteFile(ro, []byte("x"))
+		add("Write on a read-only handle", err)
+		_, err = hackpadfs.WriteAtFile(ro, []byte("x"), 0)
+		add("WriteAt on a read-only handle", err)
+		add("Truncate on a read-only handle", hackpadfs.TruncateFile(ro, 1))
+		_, err = dir.Read(make([]byte, 4))
+		add("Read on a directory handle", err)
+		_, err = hackpadfs.ReadDirFile(ro, -1)
+		add("ReadDir on a file handle", err)
+		_, err = hackpadfs.SeekFile(rw, -1, io.SeekStart)
+		add("Seek to a negative offset", err)
+		add("Truncate to a negative size", hackpadfs.TruncateFile(rw, -1))
+		_, err = hackpadfs.ReadAtFile(rw, make([]byte, 2), -1)
+		add("ReadAt at a negative offset", err)
+		_, err = io.Copy(rwWriter{ro}, rw)
+		add("io.Copy into a read-only handle", err)
+		_, err = io.Copy(rwWriter{rw}, dir)
+		add("io.Copy from a directory handle", err)
+		_, err = io.Copy(rwWriter{closed}, ro)
+		add("io.Copy into a closed handle", err)
+		_, err = closed.Stat()
+		add("Stat on a closed handle", err)
+	})
+	if pan != "" || hung {
+		return "C09/liveops handles:crash", fmt.Sprintf("%s hung=%v", pan, hung)
+	}
+	for _, p := range probes {
+		if p.err == nil || p.err == io.EOF {
+			continue
+		}
+		if strings.Contains(p.err.Error(), osRoot) || strings.Contains(p.err.Error(), "/verifw-") {
+			return "C09/liveops handles:os-path-in-error", fmt.Sprintf("%s: the error names the OS path: %v", p.what, p.err)
+		}
+	}
+	return "", ""
+}
+
+// rwWriter exposes a handle as an io.Writer (and io.ReaderFrom when the handle has one) for io.Copy.
+type rwWriter struct{ f hackpadfs.File }
+
+func (w rwWriter) Write(p []byte) (int, error) { return hackpadfs.WriteFile(w.f, p) }
+func (w rwWriter) ReadFrom(r io.Reader) (int64, error) {
+	if rf, ok := w.f.(io.ReaderFrom); ok {
+		return rf.ReadFrom(r)
+	}
+	return io.Copy(struct{ io.Writer }{w}, r)
 }
 
 func genLive(rt *rapid.T) LiveCase {
